@@ -2,10 +2,10 @@
    check.  Only the standard directives of ExtrOcamlBasic / ExtrOcamlZBigInt are used.
    Compiled with cwd = /verif/ocaml/c13 so that model.ml lands there. *)
 From Coq Require Import Extraction ExtrOcamlBasic ExtrOcamlZBigInt.
-Require Import V.base.Fld V.model.CurveParams V.model.Curve V.gen.CodecConsts V.model.PointCodec.
+Require Import V.base.Fld V.model.CurveParams V.model.Curve V.model.PointCodec.
 Extraction Blacklist List String Nat.
 Extraction "model.ml"
-  k256_codec p256_codec pallas_codec vesta_codec blsg1_codec ed25519_codec curve25519_c
+  k256_codec_f p256_codec_f pallas_codec_f vesta_codec_f blsg1_codec_f ed25519_codec_f curve25519_params_f
   sec1_dec_c sec1_enc_c sec1_dec_u sec1_enc_u
   pasta_dec_c pasta_enc_c pasta_dec_u pasta_enc_u
   blsg1_dec_c blsg1_enc_c blsg1_dec_u blsg1_enc_u blsg1_from_affine blsg1_from_affine_x
